@@ -143,6 +143,8 @@ class VM:
         self.fork_collect = None
         self.fork_paths = None
         self._helpers = []
+        self.halt_requested = False
+        self.lazy_async = set()          # qualnames of async functions whose coroutines start at their await (tasks), see LazyCoro
         self.begin_path()
         from . import models
         models.install(self)
@@ -184,6 +186,9 @@ class VM:
                 break
             if deadline is not None and time.time() > deadline:
                 stop = 'deadline reached'
+                break
+            if self.halt_requested or (self.fork_ctl is not None and self.fork_ctl.halt.value):
+                stop = 'halted: the job has what it was looking for'
                 break
             self.begin_path()
             try:
@@ -1120,6 +1125,10 @@ class VM:
         return node._local_names
 
     def _call_interp(self, node, f, env, args, realfn):
+        if isinstance(node, ast.AsyncFunctionDef) and realfn is not None and '$lazy_started' not in env \
+                and getattr(realfn, '__qualname__', None) in self.lazy_async:
+            # a coroutine the code under analysis hands to a task: its body runs when it is awaited (by the scheduler's task), not at the call
+            return LazyCoro(self, node, f, env, args, realfn)
         if not isinstance(node, ast.Lambda):
             env['$locals'] = self.local_names(node)
         if realfn is not None and '.' in realfn.__qualname__ and args:
@@ -2159,6 +2168,25 @@ class SymText:
 
     def decode(self, *a):
         return self
+
+
+class LazyCoro:
+    """An interpreted coroutine whose body has not started (only for the functions named in vm.lazy_async)."""
+
+    def __init__(self, vm, node, f, env, args, realfn):
+        self.p = (node, f, env, args, realfn)
+        self.started = False
+
+    def __vm_await__(self, vm):
+        if self.started:
+            raise RuntimeError('cannot reuse already awaited coroutine')
+        self.started = True
+        node, f, env, args, realfn = self.p
+        env['$lazy_started'] = True
+        return vm.await_(vm._call_interp(node, f, env, args, realfn))
+
+    def close(self):
+        self.started = True
 
 
 class Done:
